@@ -75,9 +75,31 @@ def numeric_value(expr, point, dps=50):
         return f(*args)
 
 
-def refute(expr, domain=None, seed=0, n_points=3):
-    """Return (point, value) with value != 0, or None if all points evaluate to ~0."""
+def refute(expr, domain=None, seed=0, n_points=3, points=None):
+    """Return (point, value) with value != 0, or None if all points evaluate to ~0.
+    With `points` (a list of {Symbol: number}) only those points are evaluated (inputs known to lie on one path)."""
     expr = sp.sympify(expr)
+    if points is not None and not expr.is_number:
+        syms = sorted(expr.free_symbols, key=lambda s: s.name)
+        f = sp.lambdify(syms, expr, modules="mpmath")
+        for pt in points:
+            pt = dict(pt)
+            for s_ in syms:                      # constants of the contract (degenerate boxes) are not part of a witness
+                if s_ not in pt and domain and s_ in domain and domain[s_][0] == domain[s_][1]:
+                    pt[s_] = domain[s_][0]
+            try:
+                with mpmath.workdps(60):
+                    a = [mpmath.mpf(sp.Rational(repr(float(pt[s]))).p) / mpmath.mpf(sp.Rational(repr(float(pt[s]))).q) for s in syms]
+                    v = f(*a)
+                    if isinstance(v, mpmath.mpc):
+                        if abs(v.imag) > mpmath.mpf("1e-30"):
+                            continue
+                        v = v.real
+                    if abs(v) > mpmath.mpf("1e-25"):
+                        return {s: sp.Rational(repr(float(pt[s]))) for s in syms}, v
+            except (ZeroDivisionError, ValueError, OverflowError, KeyError):
+                continue
+        return None
     if expr.is_number:
         v = sp.N(expr, 50)
         if abs(v) > sp.Float("1e-30"):
@@ -338,8 +360,9 @@ def normal_form(expr, gens=None, extra_relations=(), cos_nonneg=(), full=False, 
 N_POINTS = 3
 
 
-def check_zero(expr, domain=None, seed=0, n_points=None, extra_relations=(), cos_nonneg=(), budget_s=None):
-    """Decide expr == 0 on the domain.  Verdict.status in proved/refuted/undecided."""
+def check_zero(expr, domain=None, seed=0, n_points=None, extra_relations=(), cos_nonneg=(), budget_s=None, points=None):
+    """Decide expr == 0 on the domain.  Verdict.status in proved/refuted/undecided.
+    `points`: restrict the numeric refuter to these inputs (the residual belongs to one execution path)."""
     t0 = time.time()
     n_points = N_POINTS if n_points is None else n_points
     expr = sp.sympify(expr)
@@ -348,10 +371,10 @@ def check_zero(expr, domain=None, seed=0, n_points=None, extra_relations=(), cos
     # with extra relations (e.g. orthogonality of a generic rotation matrix) the
     # numeric refuter cannot sample the variety, so it is skipped
     if not extra_relations:
-        r = refute(expr, domain, seed, n_points)
+        r = refute(expr, domain, seed, n_points, points=points)
         if r is not None:
             pt, v = r
-            return Verdict("refuted", "mpmath-100", time.time() - t0,
+            return Verdict("refuted", "mpmath-100" if points is None else "mpmath-60(at path witnesses)", time.time() - t0,
                            "value %s" % mpmath.nstr(v, 8) if not isinstance(v, sp.Basic) else "value %s" % v,
                            point={str(k): str(val) for k, val in pt.items()}, value=str(v))
     if expr.atoms(sp.atan2, sp.asin):
